@@ -1,6 +1,6 @@
 (** ValidMathProofs.v — C04 proofs, part 2: the MathML passes of validateMath against ValidSpec.MathDocOK. *)
 From Coq Require Import String Ascii List Bool Arith Lia.
-From LC Require Import Common NumDefs MathDefs ValidDefs ValidSpec ValidLeaf.
+From LC Require Import Common NumDefs NumPosDefs MathDefs ValidDefs ValidSpec ValidLeaf.
 Import ListNotations.
 Local Open Scope string_scope.
 Local Open Scope list_scope.
@@ -36,30 +36,29 @@ Proof.
   intros. reflexivity.
 Qed.
 
-Lemma val_cicn_elem : forall vars units ns n attrs kids,
-  val_cicn vars units (Elem ns n attrs kids)
+Lemma val_cicn_elem : forall cf vars units ns n attrs kids,
+  val_cicn_gen cf vars units (Elem ns n attrs kids)
   = (if is_mathml_el "cn" (Elem ns n attrs kids) then val_cn_units units attrs
-     else if is_mathml_el "ci" (Elem ns n attrs kids) then val_ci_name vars kids else [])
-    ++ flat_map (val_cicn vars units) kids.
+     else if is_mathml_el "ci" (Elem ns n attrs kids) then val_ci_name_gen cf vars kids else [])
+    ++ flat_map (val_cicn_gen cf vars units) kids.
 Proof.
   intros. reflexivity.
 Qed.
 
-Lemma val_struct_q_elem : forall q fx pk idx ns n attrs kids,
-  val_struct_q q fx pk idx (Elem ns n attrs kids)
+Lemma val_struct_d_elem : forall df q fx pk idx ns n attrs kids,
+  val_struct_d df q fx pk idx (Elem ns n attrs kids)
   = if negb (String.eqb ns MATHML_NS) then []
-    else let sub := val_struct_kids_q q fx (mkids kids) kids 0 in
-         let r := val_node fx pk idx n attrs kids sub in
-         if q && is_qualifier n then match r with [] => sub | _ => r end else r.
+    else let sub := val_struct_kids_d df q fx (mkids kids) kids 0 in
+         dwrap df pk n (qwrap q n (val_node fx pk idx n attrs kids sub) sub).
 Proof.
-  intros. cbn [val_struct_q]. destruct (negb (String.eqb ns MATHML_NS)); [reflexivity|].
+  intros. cbn [val_struct_d]. destruct (negb (String.eqb ns MATHML_NS)); [reflexivity|].
   assert (H : forall ks i,
              (fix go (ks : list xml) (i : nat) {struct ks} : list rule :=
                 match ks with
                 | [] => []
-                | k :: r => if is_mathml k then val_struct_q q fx (mkids kids) i k ++ go r (S i) else go r i
-                end) ks i = val_struct_kids_q q fx (mkids kids) ks i).
-  { induction ks as [|k r IH]; intro i; [reflexivity|]. cbn [val_struct_kids_q]. rewrite !IH. reflexivity. }
+                | k :: r => if is_mathml k then val_struct_d df q fx (mkids kids) i k ++ go r (S i) else go r i
+                end) ks i = val_struct_kids_d df q fx (mkids kids) ks i).
+  { induction ks as [|k r IH]; intro i; [reflexivity|]. cbn [val_struct_kids_d]. rewrite !IH. reflexivity. }
   rewrite H. reflexivity.
 Qed.
 
@@ -84,15 +83,20 @@ Lemma in_list_iff : forall s l, in_list s l = true <-> In s l.
 Proof. intros. apply str_in_iff. Qed.
 
 Lemma val_ci_name_nil : forall vars kids,
-  val_ci_name vars kids = [] <-> (text_of (first_child kids) = "" \/ In (text_of (first_child kids)) vars).
+  val_ci_name_gen ci_comment_fix_committed vars kids = [] <-> (ci_text kids = "" \/ In (ci_text kids) vars).
 Proof.
-  intros vars kids. unfold val_ci_name. destruct (str_is_empty (text_of (first_child kids))) eqn:E.
-  - apply str_is_empty_iff in E. split; [intro; left; assumption | reflexivity].
-  - destruct (in_list (text_of (first_child kids)) vars) eqn:E2.
-    + apply in_list_iff in E2. split; [intro; right; assumption | reflexivity].
-    + split; [intro H; discriminate H|]. intros [H|H].
-      * apply str_is_empty_iff in H. congruence.
-      * apply in_list_iff in H. congruence.
+  intros vars kids. unfold val_ci_name_gen, ci_text, val_ci_name. destruct ci_comment_fix_committed; cbv zeta.
+  - set (t := match first_non_comment (visible kids) with Some (Text s) => strip s | _ => "" end).
+    destruct (str_is_empty t) eqn:E.
+    + apply str_is_empty_iff in E. split; [intro; left; assumption | reflexivity].
+    + destruct (in_list t vars) eqn:E2.
+      * apply in_list_iff in E2. split; [intro; right; assumption | reflexivity].
+      * split; [intro H; discriminate H|]. intros [H|H]; [apply str_is_empty_iff in H; congruence | apply in_list_iff in H; congruence].
+  - destruct (str_is_empty (text_of (first_child kids))) eqn:E.
+    + apply str_is_empty_iff in E. split; [intro; left; assumption | reflexivity].
+    + destruct (in_list (text_of (first_child kids)) vars) eqn:E2.
+      * apply in_list_iff in E2. split; [intro; right; assumption | reflexivity].
+      * split; [intro H; discriminate H|]. intros [H|H]; [apply str_is_empty_iff in H; congruence | apply in_list_iff in H; congruence].
 Qed.
 
 Lemma cn_not_ci : forall x, is_mathml_el "cn" x = true -> is_mathml_el "ci" x = false.
@@ -102,12 +106,12 @@ Proof.
 Qed.
 
 Lemma val_cicn_nil : forall vars units x,
-  val_cicn vars units x = [] <-> forall y, In y (elements x) -> TokenOK vars units y.
+  val_cicn_gen ci_comment_fix_committed vars units x = [] <-> forall y, In y (elements x) -> TokenOK vars units y.
 Proof.
   intros vars units. induction x as [ns n attrs kids IH|s|s] using xml_ind3.
   - rewrite val_cicn_elem, elements_elem, app_nil_iff, flat_map_nil_iff.
     assert (Hown : (if is_mathml_el "cn" (Elem ns n attrs kids) then val_cn_units units attrs
-                    else if is_mathml_el "ci" (Elem ns n attrs kids) then val_ci_name vars kids else []) = []
+                    else if is_mathml_el "ci" (Elem ns n attrs kids) then val_ci_name_gen ci_comment_fix_committed vars kids else []) = []
                    <-> TokenOK vars units (Elem ns n attrs kids)).
     { unfold TokenOK. destruct (is_mathml_el "cn" (Elem ns n attrs kids)) eqn:Ecn.
       - rewrite (cn_not_ci _ Ecn). split; [intro H; split; [intro H0; discriminate H0 | intros _; exact H] | intros [_ H]; apply H; reflexivity].
@@ -145,11 +149,11 @@ Proof.
   intros. unfold is_qualifier in H. unfold val_node. destruct (vclass_of n); try discriminate H; reflexivity.
 Qed.
 
-Lemma val_struct_kids_q_nil : forall q fx mk ks i,
-  val_struct_kids_q q fx mk ks i = [] <->
-  forall j k, nth_error (mkids ks) j = Some k -> val_struct_q q fx mk (i + j) k = [].
+Lemma val_struct_kids_q_nil : forall df q fx mk ks i,
+  val_struct_kids_d df q fx mk ks i = [] <->
+  forall j k, nth_error (mkids ks) j = Some k -> val_struct_d df q fx mk (i + j) k = [].
 Proof.
-  intros q fx mk ks. induction ks as [|k r IH]; intro i; cbn [val_struct_kids_q].
+  intros df q fx mk ks. induction ks as [|k r IH]; intro i; cbn [val_struct_kids_d].
   - split; [intros _ j k H; destruct j; discriminate H | reflexivity].
   - unfold mkids. cbn [filter]. destruct (is_mathml k) eqn:E.
     + rewrite app_nil_iff, IH. split.
@@ -171,13 +175,40 @@ Proof.
   intros. inversion H; subst; [left; assumption | right; repeat split; assumption].
 Qed.
 
-Lemma val_struct_q_nil : forall q x pk i, val_struct_q q arity_fix_committed pk i x = [] <-> StructOK q pk i x.
+(** the second-operand test of diff (C01's switch) wraps a node rule that does not look at [sub] *)
+Lemma dwrap_nil : forall df q fx pk idx n attrs kids sub,
+  dwrap df pk n (qwrap q n (val_node fx pk idx n attrs kids sub) sub) = [] <->
+  dwrap df pk n (val_node fx pk idx n attrs kids []) = [] /\
+  (match vclass_of n with
+   | VApply | VPiecewise | VPiece | VOtherwise => sub = []
+   | VDegree | VLogbase | VBvar => q = true -> sub = []
+   | _ => True
+   end).
+Proof.
+  intros. unfold dwrap. destruct (df && String.eqb n "diff") eqn:Ed.
+  - apply andb_true_iff in Ed. destruct Ed as [_ Ed]. apply String.eqb_eq in Ed. subst n.
+    unfold qwrap. replace (is_qualifier "diff") with false by reflexivity. rewrite andb_false_r.
+    replace (vclass_of "diff") with VDiff by reflexivity.
+    assert (E : val_node fx pk idx "diff" attrs kids sub = val_node fx pk idx "diff" attrs kids []) by reflexivity.
+    rewrite E. tauto.
+  - unfold qwrap. destruct (q && is_qualifier n) eqn:Eq.
+    + apply andb_true_iff in Eq. destruct Eq as [Hq Hqc]. rewrite (val_node_qual _ _ _ _ _ _ sub Hqc).
+      unfold is_qualifier in Hqc. destruct (val_node fx pk idx n attrs kids []) eqn:Er.
+      * destruct (vclass_of n); try discriminate Hqc; split; try tauto; intros [_ H]; apply H; exact Hq.
+      * split; [intro H; discriminate H | intros [H _]; discriminate H].
+    + rewrite val_node_nil. apply andb_false_iff in Eq.
+      destruct (vclass_of n) eqn:Ec; unfold is_qualifier in Eq; rewrite ?Ec in Eq; try tauto;
+        (destruct Eq as [Eq|Eq]; [subst q; split; [intros [H _]; split; [exact H | intro H0; discriminate H0] | tauto] | discriminate Eq]).
+Qed.
+
+Lemma val_struct_q_nil : forall q x pk i,
+  val_struct_d diff_ci_fix_committed q arity_fix_committed pk i x = [] <-> StructOK q pk i x.
 Proof.
   intros q. induction x as [ns n attrs kids IH|s|s] using xml_ind3; intros pk i.
-  - rewrite val_struct_q_elem. destruct (String.eqb ns MATHML_NS) eqn:Ens; cbn [negb].
+  - rewrite val_struct_d_elem. destruct (String.eqb ns MATHML_NS) eqn:Ens; cbn [negb].
     2:{ split; [intros _; apply S_other; simpl; exact Ens | reflexivity]. }
     apply String.eqb_eq in Ens. subst ns. cbv zeta.
-    assert (Hsub : val_struct_kids_q q arity_fix_committed (mkids kids) kids 0 = [] <->
+    assert (Hsub : val_struct_kids_d diff_ci_fix_committed q arity_fix_committed (mkids kids) kids 0 = [] <->
                    forall j k, nth_error (mkids kids) j = Some k -> StructOK q (mkids kids) j k).
     { rewrite val_struct_kids_q_nil. split; intros H j k Hj.
       - assert (Hin : In k kids).
@@ -186,21 +217,15 @@ Proof.
       - assert (Hin : In k kids).
         { apply nth_error_In in Hj. unfold mkids in Hj. apply filter_In in Hj. tauto. }
         rewrite Forall_forall in IH. apply (IH k Hin). apply (H j k Hj). }
-    set (sub := val_struct_kids_q q arity_fix_committed (mkids kids) kids 0) in *.
-    assert (Hmain : (if q && is_qualifier n
-                     then match val_node arity_fix_committed pk i n attrs kids sub with [] => sub | _ :: _ => val_node arity_fix_committed pk i n attrs kids sub end
-                     else val_node arity_fix_committed pk i n attrs kids sub) = [] <->
-                    NodeRule pk i n attrs kids /\ (descends q n -> sub = [])).
-    { unfold NodeRule, descends. destruct (q && is_qualifier n) eqn:Eq.
-      - apply andb_true_iff in Eq. destruct Eq as [Hq Hqc]. rewrite (val_node_qual _ _ _ _ _ _ sub Hqc).
-        unfold is_qualifier in Hqc.
-        destruct (val_node arity_fix_committed pk i n attrs kids []) eqn:Er.
-        + destruct (vclass_of n); try discriminate Hqc; split; try tauto; intros [_ H]; apply H; exact Hq.
-        + split; [intro H; discriminate H | intros [H _]; discriminate H].
-      - rewrite val_node_nil. apply andb_false_iff in Eq.
-        destruct (vclass_of n) eqn:Ec; unfold is_qualifier in Eq; rewrite ?Ec in Eq; try tauto;
-          (destruct Eq as [Eq|Eq]; [subst q; split; [intros [H _]; split; [exact H | intro H0; discriminate H0] | tauto] | discriminate Eq]). }
-    rewrite Hmain, Hsub. split.
+    set (sub := val_struct_kids_d diff_ci_fix_committed q arity_fix_committed (mkids kids) kids 0) in *.
+    rewrite dwrap_nil. fold (NodeRule pk i n attrs kids).
+    assert (Hd : (match vclass_of n with
+                  | VApply | VPiecewise | VPiece | VOtherwise => sub = []
+                  | VDegree | VLogbase | VBvar => q = true -> sub = []
+                  | _ => True
+                  end) <-> (descends q n -> sub = [])).
+    { unfold descends. destruct (vclass_of n); tauto. }
+    rewrite Hd, Hsub. split.
     + intros [H1 H2]. apply S_elem; assumption.
     + intro H. apply struct_ok_elem_inv in H. destruct H as [H|[_ [H1 H2]]]; [vm_compute in H; discriminate H|].
       split; assumption.
@@ -213,7 +238,7 @@ Qed.
 Lemma val_math_env_q_nil : forall q vars units root,
   val_math_env_q q vars units root = [] <-> MathDocOK q vars units root.
 Proof.
-  intros. unfold val_math_env_q, val_math_env_gen2, MathDocOK. destruct (is_mathml_el "math" root) eqn:E; cbn [negb].
+  intros. unfold val_math_env_q, val_math_env_gen3, MathDocOK. destruct (is_mathml_el "math" root) eqn:E; cbn [negb].
   - change ((fix go (ks : list xml) : list rule := match ks with [] => [] | k :: r => val_supported k ++ go r end) (kids_of root))
       with (flat_map val_supported (kids_of root)).
     rewrite !app_nil_iff, flat_map_nil_iff, val_cicn_nil, val_struct_kids_q_nil. split.
@@ -240,7 +265,8 @@ Qed.
 
 (* ------------------------------------------------------------------ the tie to C01's transcription *)
 
-(** with the qualifier switch in the position MathDefs records for the tree, this IS C01's model of validateMath *)
+(** with the qualifier switch in the position MathDefs records for the tree, this IS C01's model of validateMath as it is
+    on HEAD *)
 Lemma val_math_env_q_c01 : forall vars units root,
-  val_math_env_q qualifier_fix_committed vars units root = val_math_env vars units root.
+  val_math_env_q qualifier_fix_committed vars units root = val_math_env_head vars units root.
 Proof. reflexivity. Qed.
